@@ -16,6 +16,7 @@ t ≤ 0 (hand model EPV/Model/Mader.lean, tied to the code) and calls `rare` onl
                            fan formulas are well defined (`L0.WellDefined`).
 -/
 import EPV.Lemmas.MaderProfile
+import EPV.Lemmas.Bridge.DetonTactics
 
 set_option linter.all false
 
@@ -34,7 +35,9 @@ theorem mader_plateau_no_nan (p : MaderRare.P) (xlab time : ℝ) (hγ : 1 < p.ga
   have h3 : 0 < p.gam := by linarith
   have hc : 0 < ccj p := by simp only [ccj]; positivity
   have hq : 0 < p.p_cj * Z p ^ bexp p / p.p_cj := div_pos (mul_pos hp (Real.rpow_pos_of_pos hz _)) hp
-  exact ⟨h2.ne', (by have := hc; simp only [ccj] at this; positivity), h1.ne', hz, by positivity, h3.ne', hp.ne', hq⟩
+  have h1' := h1.ne'; have h2' := h2.ne'; have h3' := h3.ne'; have hp' := hp.ne'; have hc' := hc.ne'
+  unfold MaderRare.L4.WellDefined
+  epv_deton_wd_pool [Z, bexp, ccj, ucj]
 
 theorem mader_fan_no_nan (p : MaderRare.P) (xlab time : ℝ) (hγ : 1 < p.gam) (hD : 0 < p.d_cj)
     (ht : 0 < time) (hdx : 0 < p.dx) (hy : 0 < Y p time (x1 p xlab time)) :
@@ -48,8 +51,12 @@ theorem mader_fan_no_nan (p : MaderRare.P) (xlab time : ℝ) (hγ : 1 < p.gam) (
   have hb : 0 < bexp p + 1 := by have := bexp_pos p hγ; linarith
   have hd : 0 < dexp p + 1 := by have := dexp_pos p hγ; linarith
   have hcc : 0 < 2 * ccj p * time := by positivity
-  exact ⟨by positivity, h2.ne', h1.ne', hcc.ne', hc.ne', hy2, hy, (mul_pos (mul_pos hdx ha) hb).ne',
-    by positivity, h3.ne', (mul_pos (mul_pos hdx ha) hd).ne'⟩
+  have h1' := h1.ne'; have h2' := h2.ne'; have h3' := h3.ne'; have hc' := hc.ne'; have hcc' := hcc.ne'
+  have hct : ccj p * time ≠ 0 := (mul_pos hc ht).ne'
+  have hb' := (mul_pos (mul_pos hdx ha) hb).ne'
+  have hd' := (mul_pos (mul_pos hdx ha) hd).ne'
+  unfold MaderRare.L0.WellDefined
+  epv_deton_wd_pool [Y, aa, bb, x1, xdet, bexp, dexp, ccj, ucj]
 
 example : ∃ (p : MaderRare.P) (xlab time : ℝ), 1 < p.gam ∧ 0 < p.d_cj ∧ 0 < time ∧ 0 < p.p_cj ∧ 0 < p.dx ∧
     0 < Y p time (x1 p xlab time) ∧ 0 < Z p := by
